@@ -152,6 +152,15 @@ check("C20", "exploration",
       "The scheduler owns interleavings at yield-point granularity (user code); pre-emption inside one autograd-internal statement is not explored.",
       "property-based testing over thread schedules (Hypothesis-drawn schedules on a deterministic scheduler) plus bounded-exhaustive schedule enumeration", "DESIGN.md C20")
 
+check("C15", "exploration",
+      "Namespace sweep over every exported callable with a NumPy twin (numpy, linalg, fft, random) and every ndarray method/attribute on a traced "
+      "array x 35 typed argument templates with the differentiated array in slot 0/1/2: applicable pairs (NumPy accepts, float output varies "
+      "smoothly) must either raise or return the Ridders derivative of raw NumPy - never zero/independent/wrong; explicit contracts that must "
+      "raise (grad of array/complex outputs, non-differentiable input types, assignment into traced arrays, mixed rule/no-rule arguments); "
+      "~80 pinned unsupported-option configurations under the raise-or-right oracle.",
+      "A callable is accused only for templates NumPy accepts from the typed pools; callables with no applicable template are listed in the evidence.",
+      "property-based testing / API fuzzing (Hypothesis) with a three-way oracle (raise, or match the numerical derivative of raw NumPy)", "DESIGN.md C15")
+
 NOT_YET = {}
 
 
